@@ -61,7 +61,7 @@ Definition rd_idx (v : view) (i : N) : M N :=
   if vlen v <=? i then panic
   else (Ok (nth (N.to_nat i) (vb v) 0), {| allocs := []; maxrd := i + 1 |}).
 (* Go  binary.BigEndian.UintK(b[i:i+k]) *)
-Definition rd_be (v : view) (i k : N) : M N := s <- rd_sub v i (i + k) ;; ret (be_dec s).
+Definition rd_be (v : view) (i k : N) : M N := s <- rd_sub v i (i + k) ;; ret (be_decw s).
 
 (* the same on a private copy (a plain Go slice whose reads do not touch the input): len-checked *)
 Definition l_sub (b : bytes) (i j : N) : option bytes :=
@@ -96,7 +96,7 @@ Proof.
 Qed.
 
 Lemma rd_be_ok v i k : i + k <= vlen v ->
-  rd_be v i k = (Ok (be_dec (sub (vb v) i (i + k))), {| allocs := []; maxrd := if i <? i + k then i + k else 0 |}).
+  rd_be v i k = (Ok (be_decw (sub (vb v) i (i + k))), {| allocs := []; maxrd := if i <? i + k then i + k else 0 |}).
 Proof.
   intros H. unfold rd_be. rewrite rd_sub_ok by lia. unfold bind, ret. cbn. unfold tr_app. cbn. f_equal. f_equal. lia.
 Qed.
@@ -104,3 +104,55 @@ Qed.
 Lemma rd_idx_ok v i : i < vlen v ->
   rd_idx v i = (Ok (nth (N.to_nat i) (vb v) 0), {| allocs := []; maxrd := i + 1 |}).
 Proof. intros H. unfold rd_idx. now replace (vlen v <=? i) with false by lia. Qed.
+
+(* ---- reasoning about binds ---------------------------------------------------------------------- *)
+Lemma res_bind {A B} (m : M A) (f : A -> M B) :
+  res (bind m f) = match res m with
+                   | Ok a => res (f a) | NeedMore => NeedMore | Err e => Err e | Panic => Panic | OutOfFuel => OutOfFuel
+                   end.
+Proof. destruct m as [[a| | | |] t]; cbn; try reflexivity. destruct (f a). reflexivity. Qed.
+
+(* every read stays below n and every allocation request is at most n *)
+Definition bounded {A} (n : N) (m : M A) : Prop :=
+  maxrd (tr m) <= n /\ Forall (fun a => a <= n) (allocs (tr m)).
+
+Lemma bounded_ret {A} n (a : A) : bounded n (ret a).
+Proof. split; cbn; [lia|constructor]. Qed.
+Lemma bounded_need_more {A} n : bounded n (@need_more A).
+Proof. split; cbn; [lia|constructor]. Qed.
+Lemma bounded_fail {A} n e : bounded n (@fail A e).
+Proof. split; cbn; [lia|constructor]. Qed.
+Lemma bounded_panic {A} n : bounded n (@panic A).
+Proof. split; cbn; [lia|constructor]. Qed.
+Lemma bounded_oof {A} n : bounded n (@out_of_fuel A).
+Proof. split; cbn; [lia|constructor]. Qed.
+Lemma bounded_alloc n a : a <= n -> bounded n (alloc a).
+Proof. intros H. split; cbn; [lia|]. constructor; [exact H|constructor]. Qed.
+
+Lemma bounded_bind {A B} n (m : M A) (f : A -> M B) :
+  bounded n m -> (forall a, res m = Ok a -> bounded n (f a)) -> bounded n (bind m f).
+Proof.
+  intros [H1 H2] Hf. destruct m as [[a| | | |] t]; cbn in *; try (split; assumption).
+  specialize (Hf a eq_refl). destruct (f a) as [r t'] eqn:E. destruct Hf as [H3 H4]. cbn in *.
+  split; cbn; [lia|]. apply Forall_app. split; assumption.
+Qed.
+
+Lemma rd_sub_bounded v i j n : j <= n -> bounded n (rd_sub v i j).
+Proof.
+  intros H. unfold rd_sub. destruct ((j <? i) || (vcap v <? j)); [apply bounded_panic|].
+  split; cbn; [destruct (i <? j); lia|constructor].
+Qed.
+Lemma rd_be_bounded v i k n : i + k <= n -> bounded n (rd_be v i k).
+Proof. intros H. unfold rd_be. apply bounded_bind; [now apply rd_sub_bounded|]. intros. apply bounded_ret. Qed.
+Lemma rd_idx_bounded v i n : vlen v <= n -> bounded n (rd_idx v i).
+Proof.
+  intros H. unfold rd_idx. destruct (vlen v <=? i) eqn:E; [apply bounded_panic|].
+  split; cbn; [lia|constructor].
+Qed.
+
+Lemma rd_be_res v i k : i + k <= vlen v -> res (rd_be v i k) = Ok (be_decw (sub (vb v) i (i + k))).
+Proof. intros H. now rewrite rd_be_ok. Qed.
+Lemma rd_sub_res v i j : i <= j -> j <= vlen v -> res (rd_sub v i j) = Ok (sub (vb v) i j).
+Proof. intros H1 H2. now rewrite rd_sub_ok. Qed.
+Lemma rd_idx_res v i : i < vlen v -> res (rd_idx v i) = Ok (nth (N.to_nat i) (vb v) 0).
+Proof. intros H. now rewrite rd_idx_ok. Qed.
